@@ -600,7 +600,7 @@ def _benign_call(c):
     return tail in ("isinstance", "len", "getattr", "hasattr", "get", "keys", "values", "items", "lower", "upper", "strip", "lstrip", "rstrip", "startswith", "endswith",
                     "join", "format", "split", "basename", "dirname", "realpath", "abspath", "exists", "lexists", "isfile", "isdir", "islink", "is_enabled", "get_name",
                     "get_delegate", "get_registry_points", "get_dependencies", "get_dependents", "is_datasource", "is_rule", "str", "int", "bool", "set", "list", "dict", "tuple", "sorted",
-                    "reversed", "format_exc", "get_filters", "get_component_type", "search", "findall") or n in ("os.path.join",)
+                    "reversed", "format_exc", "get_filters", "get_component_type", "search", "findall", "group", "groups", "partition", "rpartition", "replace") or n in ("os.path.join",)
 
 
 def _is_inside(a, fn):
